@@ -698,11 +698,27 @@ pub mod sched {
     }
 
     static ACTIVE: AtomicBool = AtomicBool::new(false);
-    static SUBS: AtomicBool = AtomicBool::new(false);
+    // bit mask of the worker groups under scheduler control
+    static SUBS: std::sync::atomic::AtomicU8 = std::sync::atomic::AtomicU8::new(0);
+    pub const MERKLE_WORKERS: u8 = 1;
+    pub const BEATREE_WORKERS: u8 = 2;
 
-    /// Whether worker sub-threads (merkle update workers) are put under scheduler control.
+    /// Whether worker sub-threads of group `group` are put under scheduler control.
+    pub fn control_group(group: u8, on: bool) {
+        if on {
+            SUBS.fetch_or(group, Ordering::SeqCst);
+        } else {
+            SUBS.fetch_and(!group, Ordering::SeqCst);
+        }
+    }
+
+    fn group_on(group: u8) -> bool {
+        SUBS.load(Ordering::SeqCst) & group != 0
+    }
+
+    /// Whether the merkle update workers are put under scheduler control.
     pub fn control_workers(on: bool) {
-        SUBS.store(on, Ordering::SeqCst);
+        control_group(MERKLE_WORKERS, on);
     }
     static CUR: Mutex<Option<Arc<Sched>>> = Mutex::new(None);
     thread_local! { static ME: Cell<Option<usize>> = Cell::new(None); }
@@ -812,12 +828,25 @@ pub mod sched {
         park(&s, me, label, lock_id, mode, probe);
     }
 
-    /// A scheduling point inside a worker sub-thread; inert unless workers are under control.
+    /// A scheduling point inside a merkle worker; inert unless those workers are under control.
     pub fn worker_point(label: &str) {
-        if !SUBS.load(Ordering::SeqCst) {
+        worker_point_g(MERKLE_WORKERS, label, &|| true);
+    }
+
+    /// A scheduling point inside a worker of `group` (or the task that joins them) in front of
+    /// an operation that blocks until `probe` holds; inert unless the group is under control.
+    pub fn worker_point_g(group: u8, label: &str, probe: &dyn Fn() -> bool) {
+        if !group_on(group) {
             return;
         }
-        point(label, &|| true);
+        point(label, probe);
+    }
+
+    /// Whether `recv` on `rx` would return at once (a message is queued or all senders are gone).
+    pub fn recv_ready<T>(rx: &crossbeam_channel::Receiver<T>) -> bool {
+        let mut sel = crossbeam_channel::Select::new();
+        sel.recv(rx);
+        sel.try_ready().is_ok()
     }
 
     /// Register the calling thread as controlled thread `id` and park at its start point.
@@ -841,7 +870,11 @@ pub mod sched {
     /// Announce that `n` worker sub-threads (numbered 0..n) are about to be started by the running
     /// API call. Their slots are created right away so that the scheduler waits for them.
     pub fn expect_subs(n: usize) {
-        if !SUBS.load(Ordering::SeqCst) {
+        expect_subs_g(MERKLE_WORKERS, n);
+    }
+
+    pub fn expect_subs_g(group: u8, n: usize) {
+        if !group_on(group) {
             return;
         }
         let Some(s) = current() else { return };
@@ -863,7 +896,11 @@ pub mod sched {
         /// Called at the start of worker `idx` of the group announced last: parks at its start
         /// point.
         pub fn begin(idx: usize, label: &str) -> SubGuard {
-            if !SUBS.load(Ordering::SeqCst) {
+            Self::begin_g(MERKLE_WORKERS, idx, label)
+        }
+
+        pub fn begin_g(group: u8, idx: usize, label: &str) -> SubGuard {
+            if !group_on(group) {
                 return SubGuard { active: false };
             }
             let Some(s) = current() else { return SubGuard { active: false } };
